@@ -16,6 +16,7 @@
   for every shipped rail except `self check output`, see C02).
 -/
 import NemoVerif.Lemmas.Pipeline
+import NemoVerif.Lemmas.PipelineV2
 import NemoVerif.Lemmas.PipelineTie
 
 namespace NemoVerif.C01
@@ -171,5 +172,88 @@ example : ∃ (cfg : Cfg) (t : Turn), WF cfg .input ∧ WF cfg .output ∧ cfg.i
    { user := "u", bot := "b", intent := .free, actFault := false, retrFault := false,
      vin := fun r _ => if r = 2 then .rewrite "m" else if r = 0 then .reject else .accept, vout := fun _ _ => .accept },
    fun _ _ => rfl, fun _ _ => rfl, rfl, rfl, by decide⟩
+
+/-! ### Colang 2.x (guardrails.co)
+
+  A 2.x rail is shown the user text by value and cannot rewrite it; a failing rail action yields
+  `None`, which `if not $allowed` reads as a rejection — `n2 t.vin` is the verdict function read that way. -/
+
+/-- `input_order` (2.x). -/
+theorem input_order_v2 (cfg : Cfg) (h : HistV2) (t : Turn) (hi : WF cfg .input) (ho : WF cfg .output) (hor : h.orip = false) :
+    railCalls .input (turnV2 cfg h t).1 = gate (n2 t.vin) cfg.inRails t.user := by
+  rw [turnV2_eq_spec cfg h t hi ho hor, turnSpecV2_trace]
+  simp [railCalls_input_inStopV2, railCalls_input_restV2]
+
+/-- every 2.x input rail is shown the user's text itself -/
+theorem input_text_v2 (cfg : Cfg) (h : HistV2) (t : Turn) (hi : WF cfg .input) (ho : WF cfg .output) (hor : h.orip = false) :
+    Chained (n2 t.vin) t.user (railCalls .input (turnV2 cfg h t).1) := by
+  rw [input_order_v2 cfg h t hi ho hor]
+  exact Pipeline.gate_chained _ _ _
+
+/-- `input_before_generation` (2.x). -/
+theorem input_before_generation_v2 (cfg : Cfg) (h : HistV2) (t : Turn) (hi : WF cfg .input) (ho : WF cfg .output) (hor : h.orip = false) :
+    ∃ pre post, (turnV2 cfg h t).1 = pre ++ post ∧ (∀ s ∈ pre, s.isGen = false) ∧ railCalls .input post = [] := by
+  rw [turnV2_eq_spec cfg h t hi ho hor, turnSpecV2_trace]
+  refine ⟨_, _, rfl, ?_, railCalls_input_restV2 cfg h t⟩
+  intro s hs
+  rcases List.mem_append.mp hs with h1 | h1
+  · exact isGen_railSteps _ _ s h1
+  · exact isGen_inStopV2 _ _ _ _ s h1
+
+/-- `reject_stops` (2.x): an invoked input rail that rejects (or fails) is the last input rail that
+    runs and no dialog / generation step happens in the turn; in exception mode nothing is uttered,
+    otherwise only the refusal is. -/
+theorem reject_stops_v2 (cfg : Cfg) (h : HistV2) (t : Turn) (hi : WF cfg .input) (ho : WF cfg .output) (hor : h.orip = false)
+    (c : Nat × Text) (hc : c ∈ railCalls .input (turnV2 cfg h t).1) (hr : (n2 t.vin c.1 c.2).continues = false) :
+    (railCalls .input (turnV2 cfg h t).1).getLast? = some c
+    ∧ (∀ s ∈ (turnV2 cfg h t).1, s.isGen = false)
+    ∧ (∀ x, Step.utter x ∈ (turnV2 cfg h t).1 → x = refusal ∧ cfg.exc = false) := by
+  have hio := input_order_v2 cfg h t hi ho hor
+  rw [hio] at hc ⊢
+  have hlast := Pipeline.gate_block_is_last (n2 t.vin) cfg.inRails t.user c hc hr
+  have hstop : gateStop (n2 t.vin) cfg.inRails t.user ≠ none := by
+    intro hg
+    have := Pipeline.gate_all_continue (n2 t.vin) cfg.inRails t.user hg c hc
+    rw [hr] at this; cases this
+  have hrest : restV2 cfg h t = [] := by
+    unfold restV2
+    cases hg : gateStop (n2 t.vin) cfg.inRails t.user with
+    | none => exact absurd hg hstop
+    | some v => rfl
+  refine ⟨hlast, ?_, ?_⟩
+  · rw [turnV2_eq_spec cfg h t hi ho hor, turnSpecV2_trace, hrest]
+    intro s hs
+    simp only [List.append_nil] at hs
+    rcases List.mem_append.mp hs with h1 | h1
+    · exact isGen_railSteps _ _ s h1
+    · exact isGen_inStopV2 _ _ _ _ s h1
+  · rw [turnV2_eq_spec cfg h t hi ho hor, turnSpecV2_trace, hrest]
+    intro x hx
+    simp only [List.append_nil] at hx
+    rcases List.mem_append.mp hx with h1 | h1
+    · simp [railSteps] at h1
+    · refine ⟨utter_mem_inStopV2 _ _ _ _ x h1, ?_⟩
+      cases hg : gateStop (n2 t.vin) cfg.inRails t.user with
+      | none => exact absurd hg hstop
+      | some v =>
+        rw [hg] at h1
+        cases v <;> simp [inStopV2] at h1
+        by_cases he : cfg.exc = true
+        · simp [he] at h1
+        · simpa using he
+
+/-- `every_turn` (2.x, repaired guardrails.co): every turn of every conversation is gated, and hands
+    `$output_rails_in_progress = False` to the next one. -/
+theorem every_turn_v2 (cfg : Cfg) (hfr : cfg.flagReset = true) (hi : WF cfg .input) (ho : WF cfg .output) :
+    ∀ (ts : List Turn) (h : HistV2), h.orip = false →
+      ∀ p ∈ List.zip ts (convV2 cfg h ts),
+        railCalls .input p.2.1 = gate (n2 p.1.vin) cfg.inRails p.1.user ∧ p.2.2.2.orip = false
+  | [], _, _ => by simp [convV2]
+  | t :: ts, h, hor => by
+    intro p hp
+    simp only [convV2, List.zip_cons_cons, List.mem_cons] at hp
+    rcases hp with rfl | hp
+    · exact ⟨input_order_v2 cfg h t hi ho hor, turnV2_orip cfg h t hfr hor⟩
+    · exact every_turn_v2 cfg hfr hi ho ts _ (turnV2_orip cfg h t hfr hor) p hp
 
 end NemoVerif.C01
